@@ -293,7 +293,15 @@ def run_e2e(spec, res):
         from ..gen import pdbtext
         text, _info = pdbtext.apply(m["items"], [rng.choice(["altloc_interleaved", "altloc_blocked"])], rng)
         res.count("e2e_altloc_inputs")
-    r = pipeline.run(text, spec["opts"], workname="c08")
+    suffix = ".pdb"
+    if spec["seed"] % 4 == 3 and spec["mut"] in ("none", "icode", "negnum"):
+        # the same records through the mmCIF reader (the writer takes another path for mmCIF input: no TER lines)
+        from ..gen import cifwriter
+        its = [dict(a, chain=a["chain"] or "A") if isinstance(a, dict) else a for a in m["items"]]
+        text = cifwriter.write(its, label_auth="wwpdb")
+        suffix = ".cif"
+        res.count("e2e_cif_inputs")
+    r = pipeline.run(text, spec["opts"], workname="c08", suffix=suffix)
     if not r.ok:
         res.count("e2e_failed")
         res.note(f"{spec['mut']} {spec['opts']}: {type(r.exc).__name__} {str(r.exc)[:80]}")
